@@ -100,6 +100,10 @@ pub fn profile_for(prop: &str) -> Profile {
         }
         _ => {}
     }
+    if crate::THOROUGH.load(std::sync::atomic::Ordering::Relaxed) {
+        // the thorough tier also explores longer histories
+        p.max_steps *= 2;
+    }
     p
 }
 
